@@ -422,6 +422,14 @@ impl<I: Interner> RenderAsRust<I> for AssociatedTyDatum<I> {
         let (_, assoc_ty_params) = s
             .db()
             .split_associated_ty_parameters(&binder_display_in_assoc_ty, self);
+        // well-known
+        if s.db()
+            .well_known_assoc_type_id(WellKnownAssocType::AsyncFnOnceOutput)
+            == Some(self.id)
+        {
+            write!(f, "#[lang(async_fn_once_output)]\n{}", s.indent())?;
+        }
+
         write!(f, "type {}", self.id.display(s))?;
         write_joined_non_empty_list!(f, "<{}>", assoc_ty_params, ", ")?;
 
